@@ -21,7 +21,7 @@ MANIFEST = dict(
          "the tree and not inside the departed directory. Read cuts inside a block are covered: the block AOp o; ARead n1..nj (any cut of the operation's records); ATick delay; AEmit.. delivers what the one-read block delivers - a rename whose halves fall into different reads is still paired through the delay queue (C01_tie_cuts, C01_sequential_pipeline_cuts_partial, C01_pipeline_from_start_cuts_partial). Not theorems (stated as C01_replay_full / C01_sequential_full, carried "
          "by the lock-step correspondence + the replay oracle against os.walk): bursts (several operations before a read) and reads that straddle two operations, "
          "a directory moved in over an empty directory in HISTORIES (its one-step replay law is a theorem, C01_replay_step_in_over; it is not yet an operation of c01_op) and directory-over-directory replay, two directory move-outs back to back when the second directory is moved INTO the first (the plain back-to-back case is a theorem: C01_replay_step_x2, C01_from_start_x2_partial, C01_pipeline_from_start_x2_partial)."
-         " BURSTS of file-level operations (touch, write, chmod of a file, unlink, file renames; several operations before a read, from a synchronised state, no record coalesced by the kernel across an operation border): replaying the delivered stream gives the tree after the burst, at the read_batch level, from construct() and on the Pipeline model with cut reads and loose timing (C01_burst_files_replay, C01_burst_files_replay_from_start, C01_burst_files_replay_pipeline); bursts with directory operations stay carried by the correspondence.",
+         " BURSTS of file-level operations (touch, write, chmod of a file, unlink, file renames; several operations before a read, from a synchronised state, no record coalesced by the kernel across an operation border): replaying the delivered stream gives the tree after the burst, at the read_batch level, from construct() and on the Pipeline model with cut reads and loose timing (C01_burst_files_replay, C01_burst_files_replay_from_start, C01_burst_files_replay_pipeline); bursts with directory operations stay carried by the correspondence. A burst WITH directory operations, the arrival shape `mkdir p; <mkdir / touch strictly below p>` read in one read (recursive watch, p in scope, fixed _recursive_simulate, no fault): replaying the delivered stream (the record of p plus the creates fabricated by the reader's walk) gives the tree after the burst (C01_burst_arrival_replay at the read_batch/delivered level, C01_burst_arrival_pipeline on the Pipeline model with loose timing).",
     note="Trusted: Coq kernel; the kernel model is validated, not proved; reader/emitter steps are atomic w.r.t. file-system "
          "operations (gates at poll() and read_event()). See coq/Props/C01.v for exactly which part of the replay law is a "
          "theorem and which is carried by the sampled correspondence.",
